@@ -220,14 +220,20 @@ def check(run):
         ins = [c for c in f.calls() if (c.get('callee') or '').split('::')[-1] in ('insert', 'emplace', 'emplace_hint') and q.render(f, c.get('obj')) == reg]
         if not ins:
             run.broke('%s no longer inserts into %s' % (fname, reg))
-        # the occupancy test behind address_in_use compares the WHOLE endpoint of the lower_bound neighbour with the one asked for
-        for s_ in [n for n in f.all_nodes() if n['k'] == 'call' and n.get('opc') == '=' and 'address_in_use' in q.render(f, n)]:
-            g_ = q.guards_at(f, s_)
-            keyt = [a for a, p_ in g_ if p_ and q.cmp_atom(a) and q.cmp_atom(a)[0] == '==' and any('->first' in q.render(f, x) for x in q.cmp_atom(a)[1:])]
-            whole = [a for a in keyt if {q.render(f, q.strip_casts(x)) for x in q.cmp_atom(a)[1:]} in ({'i->first', 'ep'},) or sorted(q.render(f, q.strip_casts(x)).split('->')[-1] for x in q.cmp_atom(a)[1:]) == sorted(['first', q.render(f, q.strip_casts(q.cmp_atom(a)[2]))])]
-            run.check(bool(keyt) and all(any(q.render(f, q.strip_casts(x)).endswith('->first') for x in q.cmp_atom(a)[1:]) and any(q.render(f, q.strip_casts(x)) == f.params[1]['name'] for x in q.cmp_atom(a)[1:]) for a in keyt),
-                      'R5', 'occupied-means-same-endpoint', '%s: address_in_use' % fname, f.loc(s_),
-                      'address_in_use is decided by comparing only a part of the neighbouring entry\'s endpoint (%s) with the requested one: a free endpoint is refused because another address holds the same port (or the other way round)' % ', '.join(q.render(f, a) for a in keyt),
+        # occupancy tests compare the WHOLE endpoint of the lower_bound neighbour with the one asked for - wherever they sit
+        # (the function itself, a const bool, or a helper such as endpoint_in_use(map, ep))
+        def is_key_cmp(g_, n_):
+            c_ = q.cmp_atom(n_) if n_['k'] in ('bin', 'call') else None
+            return bool(c_) and c_[0] in ('==', '!=') and any('->first' in q.render(g_, x) for x in c_[1:]) and 'end()' not in q.render(g_, n_)
+        kc = q.flat_nodes(f, is_key_cmp)
+        if not kc:
+            run.unrecognised('R5', 'occupied-means-same-endpoint', '%s: address_in_use' % fname, f.loc(), 'no comparison of a registry entry\'s key found in %s or its helpers (occupancy test idiom changed)' % fname)
+        for x in kc:
+            c_ = q.cmp_atom(x.call)
+            sides = [q.render(x.owner, q.strip_casts(y)) for y in c_[1:]]
+            whole = any(s_.endswith('->first') for s_ in sides) and not any('->first.' in s_ or '->first->' in s_ for s_ in sides)
+            run.check(whole, 'R5', 'occupied-means-same-endpoint', '%s: %s' % (fname, q.render(x.owner, x.call)[:50]), x.owner.loc(x.call),
+                      'occupancy is decided by comparing only a part of the neighbouring entry\'s endpoint (%s) with the requested one: a free endpoint is refused because another address holds the same port (or the other way round)' % q.render(x.owner, x.call),
                       'the neighbour\'s whole key is compared with the requested endpoint')
         for err in ('access_denied', 'address_in_use'):
             sites = [n for n in f.all_nodes() if n['k'] == 'call' and n.get('opc') == '=' and err in q.render(f, n)]
